@@ -413,13 +413,14 @@ def exS (r : Except Status α) : String := match r with | .ok _ => "0" | .error 
 
 partial def scMd (d : DCfg) : Tk String := do
   let mut r : Array (Option Md) := Array.replicate 8 none
+  let mut tms : Array TM := #[]
   let mut out := ""
   while (← hasTok) do
     let op ← nx
     if op == "new" then
       let a ← nxN
       r := r.set! a (some Md.empty)
-      out := out ++ "0;"
+      out := out ++ "0~"
     else if op == "add" then
       let a ← nxN
       let name ← nxB
@@ -433,8 +434,8 @@ partial def scMd (d : DCfg) : Tk String := do
         | .ok v, some (.ok dd) => Md.add name v (some dd) m
         | .ok v, none => Md.add name v none m
       match res with
-      | .ok m' => r := r.set! a (some m'); out := out ++ "0;"
-      | .error e => out := out ++ stI e ++ ";"
+      | .ok m' => r := r.set! a (some m'); out := out ++ "0~"
+      | .error e => out := out ++ stI e ++ "~"
     else if op == "addstr" then
       let a ← nxN
       let name ← nxB
@@ -443,8 +444,8 @@ partial def scMd (d : DCfg) : Tk String := do
       let dv ← (if hasd ≠ 0 then do let x ← nxB; pure (some x) else pure none)
       let m := (r[a]!).getD Md.empty
       match Md.addStr name v dv m with
-      | .ok m' => r := r.set! a (some m'); out := out ++ "0;"
-      | .error e => out := out ++ stI e ++ ";"
+      | .ok m' => r := r.set! a (some m'); out := out ++ "0~"
+      | .error e => out := out ++ stI e ++ "~"
     else if op == "addint" then
       let a ← nxN
       let name ← nxB
@@ -452,57 +453,57 @@ partial def scMd (d : DCfg) : Tk String := do
       let dv ← nxI
       let m := (r[a]!).getD Md.empty
       match Md.addInt d.cfg name v dv m with
-      | .ok m' => r := r.set! a (some m'); out := out ++ "0;"
-      | .error e => out := out ++ stI e ++ ";"
+      | .ok m' => r := r.set! a (some m'); out := out ++ "0~"
+      | .error e => out := out ++ stI e ++ "~"
     else if op == "rm" then
       let a ← nxN
       let name ← nxB
       let m := (r[a]!).getD Md.empty
       match Md.remove name m with
-      | .ok m' => r := r.set! a (some m'); out := out ++ "0;"
-      | .error e => out := out ++ stI e ++ ";"
+      | .ok m' => r := r.set! a (some m'); out := out ++ "0~"
+      | .error e => out := out ++ stI e ++ "~"
     else if op == "get" then
       let a ← nxN
       let name ← nxB
       let m := (r[a]!).getD Md.empty
       match Md.get name m with
-      | .ok o => out := out ++ "0:" ++ dumpObj d o ++ ";"
-      | .error e => out := out ++ stI e ++ ";"
+      | .ok o => out := out ++ "0:" ++ dumpObj d o ++ "~"
+      | .error e => out := out ++ stI e ++ "~"
     else if op == "getd" then
       let a ← nxN
       let name ← nxB
       let m := (r[a]!).getD Md.empty
       match Md.getDflt name m with
-      | .ok o => out := out ++ "0:" ++ dumpOptObj d o ++ ";"
-      | .error e => out := out ++ stI e ++ ";"
+      | .ok o => out := out ++ "0:" ++ dumpOptObj d o ++ "~"
+      | .error e => out := out ++ stI e ++ "~"
     else if op == "ex" then
       let a ← nxN
       let name ← nxB
       let m := (r[a]!).getD Md.empty
-      out := out ++ b01 (m.exists_ name) ++ ";"
+      out := out ++ b01 (m.exists_ name) ++ "~"
     else if op == "cnt" then
       let a ← nxN
-      out := out ++ toString ((r[a]!).getD Md.empty).cnt ++ ";"
+      out := out ++ toString ((r[a]!).getD Md.empty).cnt ++ "~"
     else if op == "copy" then
       let a ← nxN
       let b ← nxN
       match Md.copy ((r[a]!).getD Md.empty) ((r[b]!).getD Md.empty) with
-      | .ok m' => r := r.set! b (some m'); out := out ++ "0;"
-      | .error e => out := out ++ stI e ++ ";"
+      | .ok m' => r := r.set! b (some m'); out := out ++ "0~"
+      | .error e => out := out ++ stI e ++ "~"
     else if op == "freeze" then
       let a ← nxN
       r := r.set! a (some ((r[a]!).getD Md.empty).freeze)
-      out := out ++ "0;"
+      out := out ++ "0~"
     else if op == "dump" then
       let a ← nxN
-      out := out ++ dumpMd d ((r[a]!).getD Md.empty) ++ ";"
+      out := out ++ dumpMd d ((r[a]!).getD Md.empty) ++ "~"
     else if op == "setcm" then
       let a ← nxN
       let name ← nxB
       let tid ← nxN
       let (m', st) := cmSetValues name tid ((r[a]!).getD Md.empty)
       r := r.set! a (some m')
-      out := out ++ stI st ++ ";"
+      out := out ++ stI st ++ "~"
     else if op == "getcm" then
       let a ← nxN
       let m := (r[a]!).getD Md.empty
@@ -511,7 +512,7 @@ partial def scMd (d : DCfg) : Tk String := do
           | .error s => "n" ++ stI s) ++
         (match cmGetType m with
           | .ok t => s!"t0:{t}"
-          | .error s => "t" ++ stI s) ++ ";"
+          | .error s => "t" ++ stI s) ++ "~"
     else if op == "tm" then
       let a ← nxN
       let res := tmCreate ((r[a]!).getD Md.empty)
@@ -528,9 +529,12 @@ partial def scMd (d : DCfg) : Tk String := do
           | .error e => out := out ++ "," ++ stI e
       if let .ok _ := res then
         out := out ++ ":" ++ dumpTM d tm false ++ ":" ++ exS (Md.remove "x".toUTF8.toList tm.table)
-      out := out ++ ";"
+        if tms.size < 8 then tms := tms.push tm
+      out := out ++ "~"
     else
-      out := out ++ s!"BADOP({op});"
+      out := out ++ s!"BADOP({op})~"
+  for tm in tms do
+    out := out ++ "tms:" ++ dumpTM d tm false ++ "~"
   pure (out ++ "live=0")
 
 def scRt (d : DCfg) (rewrite : Nat) : Tk String := do
